@@ -184,6 +184,23 @@ fn length_box(obs: &mut Obs, _thorough: bool) -> Res {
                     let q = Query { abs: true, segs: vec![filt(e)] };
                     check_kept(&q, &doc, obs, true, || json!({"argument": what}))?;
                     n += 1;
+                    // the same on a Queryable type other than Value (no inherent string methods to lean on)
+                    {
+                        use jsonpath_rust::JsonPath;
+                        let text = render_plain(&q);
+                        let v1 = crate::vq::V1::from_j(&doc);
+                        let exp = oracle::eval(&q, &doc, &Quirks::strict()).len();
+                        obs.eval(1);
+                        match guarded(|| v1.query_only_path(&text)) {
+                            Ok(Ok(r)) if r.len() == exp => {}
+                            other => {
+                                return Err(Failure::new(
+                                    "length() differs from RFC 9535 on a second Queryable type",
+                                    json!({"query": text, "doc": doc.to_value(), "argument": what, "expected_kept": exp, "library": format!("{:?}", other.map(|r| r.map_err(|e| e.to_string())))}),
+                                ))
+                            }
+                        }
+                    }
                 }
             }
         }
